@@ -40,6 +40,45 @@ def rule_alloca(chk, prog):
     return n
 
 
+def rule_byte_order(chk, prog, everywhere=False):
+    """K2-byteorder: sibling lists are kept in strcmp order, i.e. bytes compared as *unsigned* char.  Code that orders or
+    prunes by looking at name bytes itself must compare them unsigned as well: an ordered comparison (<, >, <=, >=) of
+    two bytes that were sign-extended (plain char on this target) disagrees with strcmp for bytes >= 0x80, so a lookup
+    that stops 'past the place where the name would be' misses names that start with such a byte."""
+    n = 0
+    for f in prog.functions():
+        if f.decl or not (everywhere or f.unit.src.startswith(("lib/fstree/src/", "lib/common/src/dir_tree", "bin/gensquashfs/src/"))):
+            continue
+        f.build()
+        for i in f.insts():
+            if i.op != "icmp" or i.pred not in ("slt", "sgt", "sle", "sge", "ult", "ugt", "ule", "uge"):
+                continue
+            sides = []
+            for o in i.ops:
+                x = o
+                ext = None
+                while x.is_inst and x.op in ("sext", "zext"):
+                    ext = x.op
+                    x = x.ops[0]
+                if x.is_inst and x.op == "load" and x.ty == "i8":
+                    sides.append(ext)
+                else:
+                    sides.append(False)
+            if sides[0] is False or sides[1] is False:
+                continue          # not a comparison of two loaded bytes
+            n += 1
+            chk.analysed(f)
+            inst = "%s:bytes@%d" % (f.name, i.line)
+            signed = i.pred.startswith("s") and "sext" in sides
+            if signed:
+                chk.violation("K2-byteorder", inst, i, "two name bytes are ordered as signed char: for bytes >= 0x80 that is the "
+                              "opposite of the strcmp order the sibling list is kept in, so names starting with such a byte are "
+                              "skipped or the walk stops before reaching them")
+            else:
+                chk.ok("K2-byteorder", inst, i, "bytes are ordered unsigned, as strcmp does")
+    return n
+
+
 def rule_highwater(chk, prog):
     """K13-highwater: the number of valid block-size words of a file inode is a high-water mark.  Blocks of one file do
     not complete in index order (a sparse or all-zero block skips the I/O queue), so the store that records 'entries up
@@ -124,6 +163,17 @@ def run(chk):
     rule_g_truncate(chk, load_program("gensquashfs"))
     rule_i_every_block(chk, load_program("gensquashfs"))
     rule_highwater(chk, load_program("gensquashfs"))
+    rule_byte_order(chk, prog)
+    from .c03 import rule_file_nlink, rule_not_full
+    rule_file_nlink(chk, load_program("gensquashfs"))
+    rule_not_full(chk, load_program("gensquashfs"))
+    from ..controls import control_program
+    from ..report import Check
+    sub = Check("C01-control", chk.tier)
+    rule_byte_order(sub, control_program("c01_controls.c"), everywhere=True)
+    got = {(o["rule"], o["function"]) for o in sub.obl if o["verdict"] == "VIOLATED"}
+    chk.control("K2-byteorder", ("K2-byteorder", "ctl_signed_bytes") in got, "two plain-char bytes ordered with <")
+    chk.control("K2-byteorder/silent", ("K2-byteorder", "ctl_unsigned_bytes") not in got, "unsigned byte comparison must not be reported")
     chk.floor("K13-highwater", 1)
     # a write error that is lost lets the packer exit 0 with an image that does not read back: the error-flow rules of
     # C13 that decide 'a failure is not forgotten' are necessary conditions here as well
